@@ -1203,7 +1203,14 @@ func (a *Agent) ToMap() map[string]interface{} {
 	ParentAgent = a.Pivots.Parent
 	a.Pivots.Parent = nil
 
+	// the linked agents point back to this agent as their parent: converting them
+	// too would never end, so leave them out like the parent
+	LinkedAgents := a.Pivots.Links
+	a.Pivots.Links = nil
+
 	Info = structs.Map(a)
+
+	a.Pivots.Links = LinkedAgents
 
 	Info["Info"].(map[string]interface{})["Listener"] = nil
 
